@@ -136,7 +136,7 @@ func extRunAll(c *core.Ctx, jobs []extJob, module, cfgFile string, sig func(job 
 		}
 	}
 	c.Extra["accepted_calls_per_action"] = accepted
-	for _, a := range []string{"Mkdir", "Create", "WriteAt", "Append", "Symlink", "Remove"} {
+	for _, a := range []string{"Mkdir", "Create", "WriteAt", "Append", "Symlink", "Remove", "Hold", "HeldWrite"} {
 		if accepted[a] == 0 {
 			c.Broken("vacuous: no %s call was accepted by the real filesystem", a)
 		}
@@ -163,6 +163,9 @@ func extRunBatch(c *core.Ctx, jobs []extJob, base, total int, module, cfgFile st
 			c.AddEval(1)
 			if ev["res"] == "ok" {
 				accepted[str(ev, "a")]++
+				if ev["held"] == true {
+					accepted["HeldWrite"]++
+				}
 			}
 		}
 		c.Distinct(fmt.Sprintf("%+v|%v", jobs[i].cfg, jobs[i].ops))
@@ -242,7 +245,7 @@ func extConfigs(tier string) []extCfg {
 }
 
 func C04(c *core.Ctx) {
-	c.Rule = "behaviour = (Create parameters, call sequence): every sequence of depth D over the alphabet of ExtTree_Gen (Mkdir, Create, WriteAt x offsets {0,1,sector,block-1,block,block+1,EOF,EOF+1} x lengths, Append, Symlink x target length classes {1,59,60,61,255,4095,absolute}, Remove, Chmod/Chown/Chtimes, calls the tree cannot do) generated by TLC (BFS) + -simulate walks + scripted behaviours (24 alternating appends -> many extents, directory churn past one block, multi-block files written in pieces); configurations: 1 KiB and 4 KiB blocks, with/without journal and metadata checksums, start 0 / 1 MiB / > 4 GiB; non-trivial = every behaviour (distinct key = config|sequence)"
+	c.Rule = "behaviour = (Create parameters, call sequence): every sequence of depth D over the alphabet of ExtTree_Gen (Mkdir, Create, WriteAt x offsets {0,1,sector,block-1,block,block+1,EOF,EOF+1} x lengths, Append, Symlink x target length classes {1,59,60,61,255,4095,absolute}, Remove, Chmod/Chown/Chtimes, calls the tree cannot do) generated by TLC (BFS) + -simulate walks + scripted behaviours (24 alternating appends -> many extents, directory churn past one block, multi-block files written in pieces, macros at block-group boundaries, 260-extent files, a volume filled until writes are refused); write handles kept open across other calls (Hold), incl. attribute setters on the held file; configurations: 1 KiB and 4 KiB blocks, with/without journal and metadata checksums, start 0 / 1 MiB / > 4 GiB; non-trivial = every behaviour (distinct key = config|sequence)"
 	c.Assumptions = []string{"ExtTree accept/refuse semantics: refusals are legal; reading a file the library wrote must not fail (read errors are rejected)", "attribute tokens are decimal strings compared by TLC"}
 	depth, walks, wd := 2, 25, 25
 	if c.Tier == "thorough" {
